@@ -290,7 +290,9 @@ register(
             _rq.q_suite("queue", 200, 5000, [_rq.V("single", 0, 0, 0, 0), _rq.V("multi", 1, 1, 1, 0)],
                         [_rq.V("single", 0, 0, 0, 0), _rq.V("multi", 1, 1, 1, 0), _rq.V("spin", 0, 1, 0, 1)], nontrivial=_rq.nt_queue),
             # "... and exceptions": the fault enumeration of C09, judged by the object ledger only
-            lambda ctx, search=False: _c09.fault_suite(ctx, search, only="ledger", nq=6, nt=60)],
+            lambda ctx, search=False: _c09.fault_suite(ctx, search, only="ledger", nq=6, nt=60),
+            # objects held by AnyData arguments (C17's correspondence runs, judged here by their ledger: every held object destroyed exactly once)
+            lambda ctx, search=False: __import__("reg_util").anydata_suite(ctx, search)],
     level_text="Lean theorems: on the pointer model, with no traversal running exactly the live chain is reachable from head/tail (live nodes point only to live nodes), a removed node is "
                "unreachable, moved-from / cleared objects retain nothing, clones retain exactly their fresh nodes (Properties/C08); the nodes the object does not retain form an acyclic graph under next/previous for every run of every behaviour, so reference counting releases them (Properties/C08acyclic); on the queue model every slot is in exactly one list, "
                "occupied iff it holds an event, set only on empty and cleared only on occupied slots, every event consumed exactly once (C08q, C05); AnyData ledger invariant (C17). "
